@@ -44,14 +44,14 @@ class C15(Check):
                    'shutdown order is required for every configured attachment between existing modules, whether or '
                    'not it was used before']
     PROBES = ('c15.attachment-edge', 'c15.cyclic', 'c15.missing-target', 'c15.wrong-type', 'c15.pinata', 'c15.shared-io',
-              'c15.failing-init', 'c15.hanging-first-poll', 'c15.configured-write', 'c15.shutdown-during-read', 'c15.restart', 'c15.attached-to-dynamic-module', 'c15.polled-by-attached-io', 'fault.start-up-write-comfail',
+              'c15.failing-init', 'c15.hanging-first-poll', 'c15.configured-write', 'c15.configured-write-equals-default', 'c15.shutdown-during-read', 'c15.restart', 'c15.attached-to-dynamic-module', 'c15.polled-by-attached-io', 'fault.start-up-write-comfail',
               'c15.unexported-module', 'fault.first-read-comfail')
 
     def gen_case(self, rng, tier):
         n = rng.randrange(2, 6)
         mods = []
         for i in range(n):
-            mods.append({'name': f'm{i}', 'atts': [], 'poll': rng.random() < 0.7, 'cfgwrite': rng.random() < 0.3,
+            mods.append({'name': f'm{i}', 'atts': [], 'poll': rng.random() < 0.7, 'cfgwrite': rng.random() < 0.3, 'cfgval': rng.choice([4.5, 4.5, 0]),
                          'fail': rng.choice([None] * 12 + ['early', 'init']),
                          'first_poll': rng.choice([0, 0, 0, 0.2, 3.0]), 'comm': rng.random() < 0.2,
                          # not exported: invisible for clients, but a module of the node like the others
@@ -293,8 +293,11 @@ class C15(Check):
                 if a['to'] is not None:
                     c[a['attr']] = a['to']
             if m['cfgwrite']:
-                c['setp'] = {'value': 4.5}
+                # 0 is also the default of the parameter: a configured value is written all the same
+                c['setp'] = {'value': m.get('cfgval', 4.5)}
                 sim.count('c15.configured-write')
+                if m.get('cfgval', 4.5) == 0:
+                    sim.count('c15.configured-write-equals-default')
             if m.get('hasio'):
                 c['uri'] = 'tcp://simhost:999'
             cfg[m['name']] = c
